@@ -31,9 +31,21 @@ def handle (f : String) (j : Json) : Option Json :=
   match f with
   | "quote" =>
     let s := chars (fieldStr j "s")
-    match call (fieldStr j "fn") s with
-    | some r => some (jstr (unchars r))
-    | none => some (jerr "bad-fn")
+    -- `safely_quote(s, safe=…)` when a `safe` field is given (FX-C01-6e09416: `safely_quote_qsl`
+    -- passes "/+"), the one-argument call otherwise
+    match field j "safe" with
+    | .str safe => some (jstr (unchars (safelyQuoteIn (chars safe) s)))
+    | _ =>
+      -- `post`: the unquoter computed in the order of the Python code (decode, then the two
+      -- re-escaping passes: `safelyUnquotePost`, proved equal to `safelyUnquote`)
+      if fieldBool j "post" then
+        match unsafeOf (fieldStr j "fn") with
+        | some U => some (jstr (unchars (safelyUnquotePost U s)))
+        | none => some (jerr "bad-fn")
+      else
+      match call (fieldStr j "fn") s with
+      | some r => some (jstr (unchars r))
+      | none => some (jerr "bad-fn")
   | "chains" =>
     -- the compositions the theorems of Props/C14 speak about (and `canonicalize_url` applies):
     -- per unquoter u: q(u s), u(q(u s)), q(u(q(u s))), u(u s), u(upper s), upper(u s);
